@@ -193,6 +193,19 @@ impl Model {
         }
     }
 
+    /// the current file was renamed out of the family by someone else and the writer reopened its
+    /// output: the bytes written so far leave the family, a fresh file starts at `now`
+    pub fn current_moved_away(&mut self, now: Option<i64>) {
+        if self.has_current {
+            if let Some(last) = self.chunks.last_mut() {
+                last.bytes.clear();
+                last.started_ns = now;
+                last.size_before_last = 0;
+                last.last_len = 0;
+            }
+        }
+    }
+
     pub fn expected_stream(&self) -> Vec<u8> {
         let mut v = Vec::new();
         for c in &self.chunks {
